@@ -16,7 +16,7 @@ IND = ('Inductive form: the state of each type is proved equal to a declarative 
 CLAIMED = {
     'C01': (IND + 'Types covered: VClock, GCounter, PNCounter, GSet, LWWReg, Max/MinReg (any delivery order), MVReg (any order), GList (two concurrent replicas), Orswot and '
             'Map<_,Orswot> with nested adds (per-actor order, which includes every causal schedule): equal delivered sets give equal SPEC hence equal '
-            'reads and contexts. List, MerkleReg and Map<_,MVReg> are not covered by this check (stated in DESIGN.md).', '§6 C01'),
+            'reads and contexts. List is covered by bounded 3-op histories only; MerkleReg and Map<_,MVReg> are not covered by this check (stated in DESIGN.md).', '§6 C01'),
     'C02': (IND + 'merge(SPEC(K1),SPEC(K2)) == SPEC(K1 u K2) makes merge a function of the knowledge union, hence commutative, associative and '
             'idempotent on all reachable states (pending removes included) for VClock, GCounter, PNCounter, GSet, LWWReg, Max/MinReg, MVReg, Orswot (2 actors; 3 actors in the thorough tier), GList (two replicas). '
             'Map::merge could not be encoded within memory (DESIGN.md §9) and is outside this check.', '§6 C02'),
@@ -42,11 +42,17 @@ CLAIMED = {
     'C11': (IND + 'GCounter/PNCounter read the arithmetic sum of the largest learned totals (u128 model of BigUint), Max/MinReg the extremum, LWWReg '
             'the greatest marker (conflict flag exact), GSet the union; K = arbitrary subsets with duplicates; inc/dec/inc_many/dec_many are '
             'realised at the author.', '§6 C11'),
-    'C13': ('GList: on the state obtained by merging two replicas that inserted concurrently (symbolic indices, distinct symbolic elements, '
+    'C12': ('Bounded histories through the public API (not inductive): two ops by two symbolic actors (same or different; concurrent or causally '
+            'ordered; insert at a symbolic index or delete), each produced by the real insert_index / delete_index on the author replica, are '
+            'delivered in both causal orders with a duplicate, then a third insert/delete at a symbolic index by any actor is applied on the '
+            'converged replica and re-delivered to a lagging one: replicas with the same delivered ops are ==, every element appears once, common '
+            'elements keep one relative order on all replicas. Five output slices, each decided by the solver. Histories longer than 3 ops and '
+            'more than one concurrent pair are outside the claim.', '§6 C12'),
+    'C13': ('List: insert_index lands at the clamped index and delete_index removes the i-th element (Vec model) on the author replica and on a '
+            'converged replica holding concurrent siblings (h_list_hist3 slices 0 and 3). GList: on the state obtained by merging two replicas that inserted concurrently (symbolic indices, distinct symbolic elements, '
             'concurrent siblings with equal rationals included) insert(i,x), insert_after(id,x) and insert_before(id,x) are compared with the Vec '
             'model for every index; merge == op delivery, duplicates and stale states absorbed; Identifier::between is strictly between for all '
-            'identifier pairs of depth <= 2. List::insert_index / delete_index were encoded (h_list_hist2) but the solver does not finish: the List '
-            'half of the property is NOT covered by this check.', '§6 C13'),
+            'identifier pairs of depth <= 2. States with more than two concurrent elements are outside the claim.', '§6 C13'),
     'C14': ('Identifier::cmp is compared with a reference lexicographic order with the prefix rule on all triples of identifiers of depth <= 2 over '
             'dyadic rationals in {-2,-1.5,..,2} and markers 0..3 (equal-rational siblings and prefix pairs are cover points): total, antisymmetric, '
             'transitive, consistent with ==; between(lo,hi,m) is strictly inside for every marker and either argument order, one-sided strictly '
@@ -66,8 +72,6 @@ CLAIMED = {
 }
 
 NOT_APPLICABLE = {
-    'C12': 'List histories were encoded (harness/vh/t_list.rs) but symbolic execution over sorted-array maps keyed by symbolic identifiers plus the '
-           'solver queries exceed the time budget (> 10 min, DESIGN.md §9); not claimed rather than claimed on a timeout',
     'C15': 'MerkleReg harnesses exist (harness/vh/c15_merkle.rs) but maps keyed by 32-byte hashes blow the encoder up (> 11 M expression nodes '
            'before the first query, DESIGN.md §9); not claimed',
     'C19': 'serde_json round-trip: byte-stream serialisation code with data-dependent buffers is outside what the IR-level symbolic executor '
